@@ -8,7 +8,7 @@ for d in sorted(glob.glob('/verif/seeded/C*-*m[12]')):
     readme = open(f'{d}/README.md').read() if os.path.exists(f'{d}/README.md') else ''
     patch = open(f'{d}/patch.diff').read()
     files = re.findall(r'^\+\+\+ b/(\S+)', patch, flags=re.M)
-    title = next((l.strip('# ').strip() for l in readme.splitlines() if l.strip()), '')
+    title = next((l.strip('# ').strip() for l in readme.splitlines() if l.strip() and not l.lower().startswith('demo package')), '')
     m = re.search(r'(?is)(circumstances needed|what it needs|when it shows|trigger|what it takes to (?:show|manifest))[^\n]*\n(.*?)(\n#|\n\*\*|\n\n[A-Z][a-z]+ ?[a-z]*:|\Z)', readme)
     needs = (m.group(2).strip() if m else '')[:900] or readme[:600]
     confirm = open(f'{d}/confirm.log').read() if os.path.exists(f'{d}/confirm.log') else ''
